@@ -4,6 +4,7 @@ import (
 	"context"
 	"encoding/json"
 	"fmt"
+	"os"
 	"sort"
 	"strings"
 	"sync"
@@ -37,7 +38,7 @@ func genC11(t *rapid.T) C11Case {
 	n := rapid.IntRange(2, 14).Draw(t, "nsteps")
 	c.Steps = append(c.Steps, C11Step{Op: "open"})
 	for i := 0; i < n; i++ {
-		st := C11Step{Op: rapid.SampledFrom([]string{"open", "open", "send", "send", "send", "sendreq", "close", "release", "release", "sendheld", "releasesend", "race"}).Draw(t, "op")}
+		st := C11Step{Op: rapid.SampledFrom([]string{"open", "open", "send", "send", "send", "sendreq", "close", "release", "release", "sendheld", "releasesend", "race", "open2"}).Draw(t, "op")}
 		switch st.Op {
 		case "open":
 			st.Hold = rapid.SampledFrom(c11OpenHolds).Draw(t, "hold")
@@ -304,6 +305,62 @@ func execC11(c C11Case) *Failure {
 				sortExpectByArrival(heldOwner)
 			}
 			heldSend = nil
+		case "open2":
+			// two reconnects of the session arrive at the same time (a client that retries its GET): whichever of them the server
+			// registers last owns the session, the other one - like every earlier stream - is closed
+			attempts := 12
+			if os.Getenv("VERIF_REPLAY") != "" {
+				attempts = 200 // a replay has one case to judge: it can afford to try the overlap much more often
+			}
+			for k := 0; k < attempts; k++ {
+				if len(gateOf) > 0 || len(tearOf) > 0 || heldSend != nil {
+					break
+				}
+				hdr := map[string]string{"Accept": "text/event-stream", "Mcp-Session-Id": conn.SessionID}
+				var pair [2]*LiveResp
+				var pwg sync.WaitGroup
+				for j := range pair {
+					pwg.Add(1)
+					go func(j int) {
+						defer pwg.Done()
+						pair[j] = StartLive(h, "GET", "http://verif/mcp", hdr, nil, nil)
+					}(j)
+				}
+				pwg.Wait()
+				for _, lr := range pair {
+					if !lr.WaitFlushedHeader(Patience()) {
+						return TimingFailf("C11/stream-not-opened", "%s: one of two simultaneous GETs did not open (attempt %d)", where, k)
+					}
+				}
+				// one of the two ends (it was replaced by the other)
+				deadline := time.Now().Add(Patience())
+				for !pair[0].Returned() && !pair[1].Returned() && time.Now().Before(deadline) {
+					time.Sleep(200 * time.Microsecond)
+				}
+				switch {
+				case pair[0].Returned() && pair[1].Returned():
+					return Failf("C11/newest-stream-ended", "%s: of two simultaneous GETs both ended although their peers are connected (attempt %d)", where, k)
+				case !pair[0].Returned() && !pair[1].Returned():
+					for _, lr := range pair {
+						lr.PeerGone()
+					}
+					return TimingFailf("C11/old-stream-not-closed", "%s: two simultaneous GETs of one session are both still open %v later (attempt %d)", where, Patience(), k)
+				}
+				loser, winner := pair[0], pair[1]
+				if pair[1].Returned() {
+					loser, winner = pair[1], pair[0]
+				}
+				ls := &c11Stream{lr: loser, gen: len(streams), closed: false}
+				streams = append(streams, ls)
+				ws := &c11Stream{lr: winner, gen: len(streams)}
+				streams = append(streams, ws)
+				seq++
+				nonce := fmt.Sprintf("p%d", seq)
+				if err := w.Srv.SendNotification(conn.SessionID, "notifications/verif", map[string]interface{}{"nonce": nonce}); err != nil {
+					return Failf("C11/send-fails-although-stream-open", "%s: after two simultaneous GETs one stream (generation %d) is open, but the send failed: %v", where, ws.gen, err)
+				}
+				ws.expect = append(ws.expect, nonce)
+			}
 		case "race":
 			// the current stream's peer goes away while a new GET arrives: teardown and registration overlap for real
 			for k := 0; k < 30; k++ {
